@@ -342,6 +342,11 @@ class Loop(Node):
         """Take the last child that has a repetition count larger one, decrease it's repetition count and insert a copy
         with repetition cout one after it"""
         if child_index is not None:
+            if child_index < 0:
+                # normalize so the copy is inserted directly after the split child
+                child_index += len(self)
+                if child_index < 0:
+                    raise IndexError('child index out of range')
             if self[child_index].repetition_count < 2:
                 raise ValueError('Cannot split child {} as the repetition count is not larger 1')
 
